@@ -21,10 +21,12 @@ fn run_case(fam: &str, args: &[i128]) -> Vec<i128> {
         "causalrm" => causal::run_rm(args, 1, true),
         "causalrm2" => causal::run_rm2(args, 1, true, true),
         "causalconc" => causal::run_conc(args),
+        "causalconcsp" => causal::run_conc_sp(args),
         "causalbig" => causal::run_big(args),
         f if f.starts_with("causal_") => causal::run(args, f[7..].parse().unwrap()),
         "collections" => collections::run(args),
-        "context" => context::run(args),
+        "context" => context::run(args, 1),
+        f if f.starts_with("context_") => context::run(args, f[8..].parse().unwrap()),
         "contextbig" => context::run_big(args),
         f if f.starts_with("ugraphbig_") => ugraph::run_big(args, f[10..].parse().unwrap()),
         f if f.starts_with("ugraph_") => ugraph::run(args, f[7..].parse().unwrap()),
